@@ -188,6 +188,7 @@ type NodeEnv struct {
 	Rounds map[string]bool
 	nopen  int
 	Ctl    *crashCtl
+	OpRepo *oprepo.BaseOperationRepo
 }
 
 func NewNodeEnv(base, user string) *NodeEnv {
@@ -249,6 +250,7 @@ func (e *NodeEnv) buildNode(st state.State, board storage.Storage) node.NodeServ
 	if err != nil {
 		panic(err)
 	}
+	e.OpRepo = or
 	sp.SetOperationService(opservice.NewOperationService(or))
 	sp.SetSignatureService(sigservice.NewSignatureService(sigrepo.NewSignatureRepo(st)))
 	n, err := node.NewNode(context.Background(), &config.Config{Username: e.User}, &sp)
@@ -518,6 +520,18 @@ func (e *NodeEnv) Snapshot() string {
 	ob, _ := e.St.Get(topic + "_operations")
 	db, _ := e.St.Get(topic + "_deleted_operations")
 	fmt.Fprintf(&sb, " OPS %s DEL %s", projOpMap(ob), projOpMap(db))
+	// what the API offers: the repository's own view (pool minus tombstones)
+	vis, verr := e.OpRepo.GetOperations()
+	if verr != nil {
+		sb.WriteString(" VIS error")
+	} else {
+		var l []string
+		for _, o := range vis {
+			l = append(l, projOp(o))
+		}
+		sort.Strings(l)
+		fmt.Fprintf(&sb, " VIS %d [%s]", len(l), strings.Join(l, " , "))
+	}
 	// signatures of every round id the scenario has used
 	var rs []string
 	for r := range e.Rounds {
